@@ -11,6 +11,7 @@ From Coq Require Import ZArith NArith List Bool String Ascii.
 From Coq Require Import PrimFloat.
 Require Import PV.Gen.TypeTables.
 Import ListNotations.
+Open Scope list_scope.
 Open Scope Z_scope.
 
 Definition str := list N.
@@ -165,6 +166,9 @@ Fixpoint strip_prefix (p s : str) : option str :=
   | _ :: _, [] => None
   end.
 
+Definition head_is (c : N) (s : str) : bool := match s with x :: _ => N.eqb x c | [] => false end.
+Definition tail (s : str) : str := match s with _ :: r => r | [] => [] end.
+
 Definition match_fixed_decimal (s : str) : option (N * Z) :=
   match strip_prefix (lit "decimal(") s with
   | None => None
@@ -173,22 +177,19 @@ Definition match_fixed_decimal (s : str) : option (N * Z) :=
       match d1 with
       | [] => None
       | _ :: _ =>
-          match skip_ws s3 with
-          | 44%N :: s5 =>
-              let s6 := skip_ws s5 in
-              let neg := match s6 with 45%N :: _ => true | _ => false end in
-              let (d2, s8) := span_digits (match s6 with 45%N :: r => r | _ => s6 end) in
-              match d2 with
-              | [] => None
-              | _ :: _ =>
-                  match skip_ws s8 with
-                  | 41%N :: _ => Some (digits_val d1,
-                                       if neg then (- Z.of_N (digits_val d2)) else Z.of_N (digits_val d2))
-                  | _ => None
-                  end
-              end
-          | _ => None
-          end
+          let s4 := skip_ws s3 in
+          if head_is 44 s4 then
+            let s6 := skip_ws (tail s4) in
+            let neg := head_is 45 s6 in
+            let (d2, s8) := span_digits (if neg then tail s6 else s6) in
+            match d2 with
+            | [] => None
+            | _ :: _ =>
+                if head_is 41 (skip_ws s8)
+                then Some (digits_val d1, if neg then (- Z.of_N (digits_val d2)) else Z.of_N (digits_val d2))
+                else None
+            end
+          else None
       end
   end.
 
@@ -289,63 +290,66 @@ Definition field_of_json (rec : json -> res dtype) (f : json) : res (sfield dtyp
   | _ => Err EType      (* str / list / number [...]["name"] *)
   end.
 
+(* one level of _parse_datatype_json_value; [rec] is the recursive call *)
+Definition of_json_step (rec : json -> res dtype) (j : json) : res dtype :=
+  match j with
+  | JStr s => parse_type_string s
+  | JObj kv =>
+      match nlookup k_type kv with
+      | None => Err EKey
+      | Some (JStr tpe) =>
+          match name_class complex_type_names tpe with
+          | Some c =>
+              if String.eqb c "ArrayType" then
+                match nlookup k_elementType kv with
+                | None => Err EKey
+                | Some ej =>
+                    bind (rec ej) (fun e =>
+                      match nlookup k_containsNull kv with
+                      | None => Err EKey
+                      | Some (JBool b) => Ok (TArray e b)
+                      | Some _ => Err EUnmodelled
+                      end)
+                end
+              else if String.eqb c "MapType" then
+                match nlookup k_keyType kv with
+                | None => Err EKey
+                | Some kj =>
+                    bind (rec kj) (fun k =>
+                      match nlookup k_valueType kv with
+                      | None => Err EKey
+                      | Some vj =>
+                          bind (rec vj) (fun v =>
+                            match nlookup k_valueContainsNull kv with
+                            | None => Err EKey
+                            | Some (JBool b) => Ok (TMap k v b)
+                            | Some _ => Err EUnmodelled
+                            end)
+                      end)
+                end
+              else if String.eqb c "StructType" then
+                match nlookup k_fields kv with
+                | None => Err EKey
+                | Some (JArr l) => bind (mapM (field_of_json rec) l) (fun fs => Ok (TStruct fs))
+                | Some (JObj []) | Some (JStr []) => Ok (TStruct [])      (* iterating an empty dict / string *)
+                | Some _ => Err EType
+                end
+              else Err EUnmodelled
+          | None =>
+              if str_eqb tpe n_udt then
+                match nlookup k_pyClass kv with None => Err EKey | Some _ => Err EUnmodelled end
+              else Err EValue
+          end
+      | Some (JArr _) | Some (JObj _) => Err EType      (* unhashable *)
+      | Some _ => Err EValue
+      end
+  | _ => Err EType      (* re.match on a non-string; `[] in dict` *)
+  end.
+
 Fixpoint of_json (fuel : nat) (j : json) : res dtype :=
   match fuel with
   | O => Err EFuel
-  | S fuel' =>
-      match j with
-      | JStr s => parse_type_string s
-      | JObj kv =>
-          match nlookup k_type kv with
-          | None => Err EKey
-          | Some (JStr tpe) =>
-              match name_class complex_type_names tpe with
-              | Some c =>
-                  if String.eqb c "ArrayType" then
-                    match nlookup k_elementType kv with
-                    | None => Err EKey
-                    | Some ej =>
-                        bind (of_json fuel' ej) (fun e =>
-                          match nlookup k_containsNull kv with
-                          | None => Err EKey
-                          | Some (JBool b) => Ok (TArray e b)
-                          | Some _ => Err EUnmodelled
-                          end)
-                    end
-                  else if String.eqb c "MapType" then
-                    match nlookup k_keyType kv with
-                    | None => Err EKey
-                    | Some kj =>
-                        bind (of_json fuel' kj) (fun k =>
-                          match nlookup k_valueType kv with
-                          | None => Err EKey
-                          | Some vj =>
-                              bind (of_json fuel' vj) (fun v =>
-                                match nlookup k_valueContainsNull kv with
-                                | None => Err EKey
-                                | Some (JBool b) => Ok (TMap k v b)
-                                | Some _ => Err EUnmodelled
-                                end)
-                          end)
-                    end
-                  else if String.eqb c "StructType" then
-                    match nlookup k_fields kv with
-                    | None => Err EKey
-                    | Some (JArr l) => bind (mapM (field_of_json (of_json fuel')) l) (fun fs => Ok (TStruct fs))
-                    | Some (JObj []) | Some (JStr []) => Ok (TStruct [])      (* iterating an empty dict / string *)
-                    | Some _ => Err EType
-                    end
-                  else Err EUnmodelled
-              | None =>
-                  if str_eqb tpe n_udt then
-                    match nlookup k_pyClass kv with None => Err EKey | Some _ => Err EUnmodelled end
-                  else Err EValue
-              end
-          | Some (JArr _) | Some (JObj _) => Err EType      (* unhashable *)
-          | Some _ => Err EValue
-          end
-      | _ => Err EType      (* re.match on a non-string; `[] in dict` *)
-      end
+  | S fuel' => of_json_step (of_json fuel') j
   end.
 
 Fixpoint jdepth (j : json) : nat :=
@@ -375,6 +379,20 @@ Fixpoint jsort (j : json) : json :=
                         | p :: r => ins_kv (fst p) (jsort (snd p)) (go r)
                         end) kv)
   | _ => j
+  end.
+
+(* what the sorting does to a type tree: the metadata dicts come back with sorted keys *)
+Definition sort_meta (m : list (str * json)) : list (str * json) :=
+  match jsort (JObj m) with JObj m' => m' | _ => [] end.
+
+Fixpoint tsort (t : dtype) : dtype :=
+  match t with
+  | TArray e b => TArray (tsort e) b
+  | TMap k v b => TMap (tsort k) (tsort v) b
+  | TStruct fs => TStruct (map (fun f => match f with
+                                         | SField n ty nl m => SField n (tsort ty) nl (sort_meta m)
+                                         end) fs)
+  | _ => t
   end.
 
 (* DataType.json() followed by _parse_datatype_json_string *)
